@@ -63,6 +63,22 @@ for _n, _f in [
     _simple(_n, _f)
 
 
+@model("numpy.nansum")
+def _np_nansum(fr, args, kwargs):
+    return N.nansum(args[0], kwargs.get("axis", args[1] if len(args) > 1 else None))
+
+
+@model("numpy.clip")
+def _np_clip(fr, args, kwargs):
+    a, lo, hi = args[0], args[1], args[2]
+
+    def cl(x):
+        x = sym.toF(x)
+        l_, h_ = sym.toF(lo), sym.toF(hi)
+        return F(x.nan, z3.If(x.v < l_.v, l_.v, z3.If(x.v > h_.v, h_.v, x.v)))
+    return N.elementwise(cl, a, kind="float")
+
+
 @model("numpy.sum")
 def _np_sum(fr, args, kwargs):
     return N.sum_(args[0], kwargs.get("axis", args[1] if len(args) > 1 else None))
@@ -713,3 +729,57 @@ def _exp_window(fr, args, kwargs):
     encs = [_enc(v["center"]), _enc(v["tau"]), _enc(v["sym"]), _enc(M)]
     f = sym.ufun("scipy.windows.exponential", *[e.sort() for e in encs], z3.IntSort(), z3.RealSort())
     return Arr(((M,),), lambda idx: F(False, f(*encs, zi(idx[0][0]))), "float")
+
+
+def _recip(x_int):
+    """1/x for a positive integer expression as a named real with its defining fact (keeps formulas polynomial)"""
+    c = cur()
+    key = ("recip", zi(x_int).sexpr())
+    if key not in c.memo:
+        r = c.fresh_real("recip")
+        c.fact(z3.Implies(zi(x_int) > 0, z3.And(r * z3.ToReal(zi(x_int)) == 1, r > 0)), heavy=True)
+        c.fact(z3.Implies(zi(x_int) > 0, r > 0))
+        c.memo[key] = r
+    return c.memo[key]
+
+
+@model("numpy.cov")
+def _np_cov(fr, args, kwargs):
+    """np.cov(x, y) of two 1-D variables: the 2x2 sample covariance matrix (ddof = 1):
+    c_xy = (sum x y - (sum x)(sum y)/n) / (n - 1)"""
+    if kwargs or len(args) != 2:
+        raise Unsupported("np.cov other than cov(x, y)")
+    x, y = N.asarray(args[0]), N.asarray(args[1])
+    if x.ndim != 1 or y.ndim != 1:
+        raise Unsupported("np.cov of non-vectors")
+    n = x.extent(0)
+    c = cur()
+    c.numpy_mode += 1
+    try:
+        rn, rd = _recip(n), _recip(sym.sub(n, 1))
+        sx, sy = sym.toF(N.sum_(x)), sym.toF(N.sum_(y))
+        sxx, syy, sxy = sym.toF(N.sum_(N.multiply(x, x))), sym.toF(N.sum_(N.multiply(y, y))), sym.toF(N.sum_(N.multiply(x, y)))
+        bad = sym.Or_(sx.nan, sy.nan, sxx.nan, syy.nan, sxy.nan, sym.le(n, 1))
+        cxx = F(bad, rd * (sxx.v - rn * sx.v * sx.v))
+        cyy = F(bad, rd * (syy.v - rn * sy.v * sy.v))
+        cxy = F(bad, rd * (sxy.v - rn * sx.v * sy.v))
+    finally:
+        c.numpy_mode -= 1
+    return N.asarray([[cxx, cxy], [cxy, cyy]])
+
+
+@model("numpy.linalg.eigvals")
+def _eigvals(fr, args, kwargs):
+    """eigenvalues of a real symmetric 2x2 matrix: two reals with the matrix's trace and determinant
+    (their order is not specified)"""
+    a = N.asarray(args[0])
+    if a.ndim != 2 or not (is_pyint(a.shape[0]) and a.shape[0] == 2 and is_pyint(a.shape[1]) and a.shape[1] == 2):
+        raise Unsupported("eigvals other than 2x2")
+    c = cur()
+    a00, a01, a10, a11 = [sym.toF(a.get(i, j)) for i in (0, 1) for j in (0, 1)]
+    if not c.is_valid_full(sym.zb(sym.same(a01, a10))):
+        raise Unsupported("eigvals of a matrix not known to be symmetric")
+    l0, l1 = c.fresh_real("eig"), c.fresh_real("eig")
+    nan = sym.Or_(a00.nan, a01.nan, a11.nan)
+    c.fact(z3.Implies(z3.Not(sym.zb(nan)), z3.And(l0 + l1 == a00.v + a11.v, l0 * l1 == a00.v * a11.v - a01.v * a10.v)), heavy=True)
+    return N.asarray([F(nan, l0), F(nan, l1)])
